@@ -244,6 +244,8 @@ def count (m : MsgPol) : Nat := m.unord.length + m.ord.length
 def bytes (m : MsgPol) : Nat := lenSum m.unord + lenSum m.ord
 def queued (m : MsgPol) (s : Nat) (u : Bool) : List Chunk :=
   (if u then m.unord else m.ord).filter (·.sid == s)
+/-- the queue of ordering class `u` -/
+def classQ (m : MsgPol) (u : Bool) : List Chunk := if u then m.unord else m.ord
 
 theorem wf_empty : WF {} := ⟨by simp, by simp⟩
 
@@ -294,7 +296,9 @@ theorem pop_peeked {m : MsgPol} (h : m.WF) {c : Chunk} (hp : m.peek = some c) :
     ((m.pop c).2 = .ok ∧ (m.pop c).1.WF ∧ m.count = (m.pop c).1.count + 1 ∧
       m.bytes = (m.pop c).1.bytes + c.len ∧ Removes m.queued (m.pop c).1.queued c ∧
       (m.selected = true → m.unordSel = c.unordered) ∧ (m.selected = false → c.b = true) ∧
-      (m.pop c).1.selected = !c.e ∧ (c.e = false → (m.pop c).1.unordSel = c.unordered)) := by
+      (m.pop c).1.selected = !c.e ∧ (c.e = false → (m.pop c).1.unordSel = c.unordered) ∧
+      m.classQ c.unordered = c :: (m.pop c).1.classQ c.unordered ∧
+      (m.pop c).1.classQ (!c.unordered) = m.classQ (!c.unordered)) := by
   obtain ⟨unord, ord, selected, unordSel⟩ := m
   have hU := h.unord; have hO := h.ord
   simp only at hU hO
@@ -318,13 +322,13 @@ theorem pop_peeked {m : MsgPol} (h : m.WF) {c : Chunk} (hp : m.peek = some c) :
           simp [pop, popSelected, he]
         rw [hpop]
         exact ⟨rfl, ⟨hwf', hO⟩, by simp [count]; omega, by simp [bytes]; omega,
-          queued_removes_unord rfl rfl rfl hcu, by simp [hcu], by simp, by simp, by simp⟩
+          queued_removes_unord rfl rfl rfl hcu, by simp [hcu], by simp, by simp, by simp, by simp [classQ, hcu], by simp [classQ, hcu]⟩
       | false =>
         have hpop : pop ⟨c :: tl, ord, true, true⟩ c = (⟨tl, ord, true, true⟩, .ok) := by
           simp [pop, popSelected, he]
         rw [hpop]
         exact ⟨rfl, ⟨hwf', hO⟩, by simp [count]; omega, by simp [bytes]; omega,
-          queued_removes_unord rfl rfl rfl hcu, by simp [hcu], by simp, by simp, by simp [hcu]⟩
+          queued_removes_unord rfl rfl rfl hcu, by simp [hcu], by simp, by simp, by simp [hcu], by simp [classQ, hcu], by simp [classQ, hcu]⟩
     | false =>
       simp only [Bool.false_eq_true, if_false] at hp
       obtain ⟨tl, rfl⟩ : ∃ tl, ord = c :: tl := by
@@ -339,13 +343,13 @@ theorem pop_peeked {m : MsgPol} (h : m.WF) {c : Chunk} (hp : m.peek = some c) :
           simp [pop, popSelected, he]
         rw [hpop]
         exact ⟨rfl, ⟨hU, hwf'⟩, by simp [count]; omega, by simp [bytes]; omega,
-          queued_removes_ord rfl rfl rfl hcu, by simp [hcu], by simp, by simp, by simp⟩
+          queued_removes_ord rfl rfl rfl hcu, by simp [hcu], by simp, by simp, by simp, by simp [classQ, hcu], by simp [classQ, hcu]⟩
       | false =>
         have hpop : pop ⟨unord, c :: tl, true, false⟩ c = (⟨unord, tl, true, false⟩, .ok) := by
           simp [pop, popSelected, he]
         rw [hpop]
         exact ⟨rfl, ⟨hU, hwf'⟩, by simp [count]; omega, by simp [bytes]; omega,
-          queued_removes_ord rfl rfl rfl hcu, by simp [hcu], by simp, by simp, by simp [hcu]⟩
+          queued_removes_ord rfl rfl rfl hcu, by simp [hcu], by simp, by simp, by simp [hcu], by simp [classQ, hcu], by simp [classQ, hcu]⟩
   | false =>
     simp only [Bool.false_eq_true, if_false] at hp
     cases hb : c.b with
@@ -364,13 +368,13 @@ theorem pop_peeked {m : MsgPol} (h : m.WF) {c : Chunk} (hp : m.peek = some c) :
             simp [pop, popNewSelection, he, hb, hcu]
           rw [hpop]
           exact ⟨rfl, ⟨hwf', hO⟩, by simp [count]; omega, by simp [bytes]; omega,
-            queued_removes_unord rfl rfl rfl hcu, by simp, by simp, by simp, by simp⟩
+            queued_removes_unord rfl rfl rfl hcu, by simp, by simp, by simp, by simp, by simp [classQ, hcu], by simp [classQ, hcu]⟩
         | false =>
           have hpop : pop ⟨a :: tl, ord, false, unordSel⟩ a = (⟨tl, ord, true, true⟩, .ok) := by
             simp [pop, popNewSelection, he, hb, hcu]
           rw [hpop]
           exact ⟨rfl, ⟨hwf', hO⟩, by simp [count]; omega, by simp [bytes]; omega,
-            queued_removes_unord rfl rfl rfl hcu, by simp, by simp, by simp, by simp [hcu]⟩
+            queued_removes_unord rfl rfl rfl hcu, by simp, by simp, by simp, by simp [hcu], by simp [classQ, hcu], by simp [classQ, hcu]⟩
       | nil =>
         simp only [List.head?_nil] at hp
         obtain ⟨tl, rfl⟩ : ∃ tl, ord = c :: tl := by
@@ -385,13 +389,13 @@ theorem pop_peeked {m : MsgPol} (h : m.WF) {c : Chunk} (hp : m.peek = some c) :
             simp [pop, popNewSelection, he, hb, hcu]
           rw [hpop]
           exact ⟨rfl, ⟨hU, hwf'⟩, by simp [count], by simp [bytes]; omega,
-            queued_removes_ord rfl rfl rfl hcu, by simp, by simp, by simp, by simp⟩
+            queued_removes_ord rfl rfl rfl hcu, by simp, by simp, by simp, by simp, by simp [classQ, hcu], by simp [classQ, hcu]⟩
         | false =>
           have hpop : pop ⟨[], c :: tl, false, unordSel⟩ c = (⟨[], tl, true, false⟩, .ok) := by
             simp [pop, popNewSelection, he, hb, hcu]
           rw [hpop]
           exact ⟨rfl, ⟨hU, hwf'⟩, by simp [count], by simp [bytes]; omega,
-            queued_removes_ord rfl rfl rfl hcu, by simp, by simp, by simp, by simp [hcu]⟩
+            queued_removes_ord rfl rfl rfl hcu, by simp, by simp, by simp, by simp [hcu], by simp [classQ, hcu], by simp [classQ, hcu]⟩
 
 end MsgPol
 
